@@ -60,6 +60,10 @@ Tpl ==
     THintL |-> Typ(SObj(Props1("k", SStr), {"k"}), "L", {}),
     THintAl |-> Typ(SObj(Props1("k", SStr), {"k"}), "Al", {}),
     TTitleL |-> Typ(Titled(SArr(SStr), "L"), "", {}),
+    (* two more titled roots, one referring to itself through "#": every titled root registers the
+       reference key of the root, so a later root re-uses a key an earlier call registered *)
+    ROOTA |-> Root(Titled(SObj(Props1("w", SInt), {}), "Alpha"), << >>, {"Alpha"}),
+    ROOTB |-> Root(Titled(SObj(Props2("v", SInt, "next", SRef("#")), {"v"}), "Beta"), << >>, {"Beta"}),
     ROOT  |-> Root(Titled(SObj(Props1("a", SRef("A")), {}), "Root"), [A |-> ObjA], {}) ]
 
 Names == DOMAIN Tpl
